@@ -672,6 +672,10 @@ impl<'m> MCTPSMBusContext<'m> {
                 // Vendor defined, we don't know what to do
                 Ok(((msg_type, payload), None))
             }
+            MessageType::SpdmOverMctp | MessageType::SecuredMessages => {
+                // Not a control message, there is nothing to respond to
+                Ok(((msg_type, payload), None))
+            }
             _ => Err((MessageType::Invalid, DecodeError::Unknown)),
         }
     }
